@@ -38,7 +38,8 @@ type Object struct {
 type Ptr struct {
 	Obj  *Object
 	Path []int
-	// Fn is set for pointers to functions / globals that are not cells (unused otherwise)
+	// Sym, when set, is a symbolic index into the scalar array Path points to (in range by construction)
+	Sym *Term
 }
 
 type Slice struct {
@@ -291,12 +292,46 @@ func (m *Machine) cell(p Ptr) *Value {
 
 func (m *Machine) load(p Ptr) Value {
 	m.access(p, false)
+	if p.Sym != nil {
+		return m.selectSym(p)
+	}
 	return copyVal(*m.cell(p))
 }
 
 func (m *Machine) store(p Ptr, v Value) {
 	m.access(p, true)
+	if p.Sym != nil {
+		arr := (*m.cell(Ptr{Obj: p.Obj, Path: p.Path})).(*ArrayV)
+		nv := v.(*Term)
+		for i := range arr.E {
+			arr.E[i] = m.S.Ite(m.S.Eq(p.Sym, m.S.Const(p.Sym.W, uint64(i))), nv, arr.E[i].(*Term))
+		}
+		return
+	}
 	*m.cell(p) = copyVal(v)
+}
+
+// selectSym reads a scalar array at a symbolic index: an ite chain over the distinct element values.
+func (m *Machine) selectSym(p Ptr) Value {
+	s := m.S
+	arr := (*m.cell(Ptr{Obj: p.Obj, Path: p.Path})).(*ArrayV)
+	groups := map[*Term]*Term{} // element term → condition "index selects it"
+	var order []*Term
+	for i, e := range arr.E {
+		t := e.(*Term)
+		c := s.Eq(p.Sym, s.Const(p.Sym.W, uint64(i)))
+		if old, ok := groups[t]; ok {
+			groups[t] = s.BOr(old, c)
+		} else {
+			groups[t] = c
+			order = append(order, t)
+		}
+	}
+	res := order[len(order)-1]
+	for i := len(order) - 2; i >= 0; i-- {
+		res = s.Ite(groups[order[i]], order[i], res)
+	}
+	return res
 }
 
 func sub(p Ptr, i int) Ptr {
